@@ -341,7 +341,17 @@ def frozen_cases():
         if keep_mtime:
             os.utime(fp, ns=(st.st_atime_ns, st.st_mtime_ns))
 
-    items = list(refs.items()) + [("right_after_tamper_same_size_same_mtime", lambda: tamper(True)), ("right_after_tamper_same_size", lambda: tamper(False))]
+    # bytes that are "the same document" to a reader but not the pinned bytes: the digest binds bytes, not a normal form of them
+    variants = {"equivalent_crlf": good.replace(b"\n", b"\r\n"), "equivalent_bom": b"\xef\xbb\xbf" + good, "equivalent_trailing_space": good.replace(b"A::1\n", b"A::1 \n"),
+                "equivalent_no_final_newline": good[:-1], "equivalent_extra_final_newline": good + b"\n", "equivalent_cr_only": good.replace(b"\n", b"\r")}
+
+    def variant(data):
+        def f():
+            with open(os.path.join(cache, dg[:16] + ".oct.md"), "wb") as fh:
+                fh.write(data)
+        return f
+
+    items = list(refs.items()) + [(k, variant(v)) for k, v in variants.items()] + [("right_after_tamper_same_size_same_mtime", lambda: tamper(True)), ("right_after_tamper_same_size", lambda: tamper(False))]
     for k, ref in items:
         if callable(ref):
             with open(os.path.join(cache, dg[:16] + ".oct.md"), "wb") as f:      # restore, resolve once (a memo may now exist), tamper
@@ -363,6 +373,89 @@ def frozen_cases():
         except Exception:
             recs.append({"route": k, "resolved": False, "digest_matches": False, "in_cache": False, "opened_elsewhere": 0})
     shutil.rmtree(d, ignore_errors=True)
+    return recs
+
+
+def staging_cases():
+    """Predictable staging names beside the target are symlink bait: for every route that writes a file, the names it creates
+    next to the target are observed twice; a name that repeats (and a pool of conventional ones) is planted as a link to a file
+    OUTSIDE the sandbox before the route runs again - the outside file must keep its bytes and the target must not become a link."""
+    from click.testing import CliRunner
+    from octave_mcp.cli.main import cli
+    from octave_mcp.core.file_ops import atomic_write_octave
+    from octave_mcp.mcp.write import WriteTool
+    base = tempfile.mkdtemp(prefix="c19s.", dir=os.environ.get("VERIF_SCRATCH", "/var/tmp"))
+    outside = os.path.join(base, "outside")
+    os.makedirs(outside)
+    victim = os.path.join(outside, "victim.oct.md")
+    src = os.path.join(base, "src.oct.md")
+    with open(src, "w") as f:
+        f.write(DOC)
+    w = WriteTool()
+    routes = {
+        "write_content": lambda t: run_async(w.execute(target_path=t, content=NEW)),
+        "write_changes": lambda t: run_async(w.execute(target_path=t, changes={"A": 5})),
+        "write_normalize": lambda t: run_async(w.execute(target_path=t)),
+        "api_atomic_write": lambda t: atomic_write_octave(t, NEW, None),
+        "cli_write": lambda t: CliRunner().invoke(cli, ["write", t, "--content", NEW], catch_exceptions=True),
+        "cli_write_changes": lambda t: CliRunner().invoke(cli, ["write", t, "--changes", '{"A": 5}'], catch_exceptions=True),
+        "cli_normalize_o": lambda t: CliRunner().invoke(cli, ["normalize", src, "-o", t], catch_exceptions=True),
+        "cli_seal_o": lambda t: CliRunner().invoke(cli, ["seal", src, "-o", t], catch_exceptions=True),
+    }
+    conventional = [".doc.oct.md.tmp", "doc.oct.md.tmp", "doc.oct.md~", ".doc.oct.md.swp", "doc.oct.md.bak", "doc.oct.md.new", ".doc.oct.md.lock", "doc.tmp", ".tmp"]
+    recs = []
+    n = [0]
+
+    def fresh(existing):
+        n[0] += 1
+        d = os.path.join(base, "root", "w%d" % n[0])
+        os.makedirs(d)
+        t = os.path.join(d, "doc.oct.md")
+        if existing:
+            with open(t, "w") as f:
+                f.write(DOC)
+        return d, t
+
+    try:
+        for rname, fn in routes.items():
+            for existing in (True, False):
+                if not existing and rname in ("write_changes", "write_normalize", "cli_write_changes"):
+                    continue
+                seen = []
+                for _ in range(2):
+                    d, t = fresh(existing)
+                    rec = fsio.Recorder(d, lambda path: path)
+                    un = fsio.install(rec)
+                    try:
+                        try:
+                            fn(t)
+                        except Exception:
+                            pass
+                    finally:
+                        un()
+                    names = set()
+                    for e in rec.events:
+                        for pth in (e.get("path"), e.get("path2")):
+                            if isinstance(pth, str) and os.path.dirname(pth) == d and pth != t:
+                                names.add(os.path.basename(pth))
+                    seen.append(names)
+                planted = sorted((seen[0] & seen[1]) | set(conventional))
+                for name in planted:
+                    d, t = fresh(existing)
+                    with open(victim, "w") as f:
+                        f.write(SECRET)
+                    os.symlink(victim, os.path.join(d, name))
+                    try:
+                        fn(t)
+                    except Exception:
+                        pass
+                    with open(victim) as f:
+                        changed = f.read() != SECRET
+                    recs.append({"route": "%s%s:%s" % (rname, "" if existing else "(new)", name if name in conventional else "observed-staging-name"),
+                                 "outside_changed": bool(changed or sorted(os.listdir(outside)) != ["victim.oct.md"]),
+                                 "target_is_link": os.path.islink(t), "predictable": name in (seen[0] & seen[1])})
+    finally:
+        shutil.rmtree(base, ignore_errors=True)
     return recs
 
 
@@ -400,6 +493,7 @@ def run(ctx):
         recs += engine.parallel_map(replay_uri, [(n0 + k, u) for k, u in enumerate(uris)], chunk=100)
         nrec = engine.parallel_map(replay_name, [(k, n) for k, n in enumerate(names)], chunk=100)
         nrec.append({"i": len(nrec), "kind": "frozen", "case": {"name": []}, "obs": frozen_cases()})
+        nrec.append({"i": len(nrec), "kind": "staging", "case": {"name": []}, "obs": staging_cases()})
     finally:
         _cleanup()
     # uniform record shape for TLC: every obs entry carries every field
@@ -418,7 +512,7 @@ def run(ctx):
         o2 = []
         for o in r["obs"]:
             full = {"route": o["route"], "opened_elsewhere": 0, "loaded": False, "loaded_from_schema_dir": False,
-                    "resolved": False, "digest_matches": False, "in_cache": False}
+                    "resolved": False, "digest_matches": False, "in_cache": False, "outside_changed": False, "target_is_link": False, "predictable": False}
             full.update(o)
             o2.append(full)
         ntr.append({"i": r["i"], "kind": r["kind"], "case": r["case"], "obs": o2})
@@ -434,7 +528,9 @@ def run(ctx):
         ctx, failures=failures, matchers=MATCHERS, evaluations=sum(len(r["obs"]) for r in recs) + sum(len(r["obs"]) for r in nrec),
         distinct_nontrivial=nontrivial,
         rule="cases = every path of <= MaxSeg segment kinds (absolute and relative) and every source URI of spec/PathGuard.tla over "
-             "the fixed layout, every schema-name string of <= MaxLen symbols of spec/NameSpace.tla, 13 frozen references; "
+             "the fixed layout, every schema-name string of <= MaxLen symbols of spec/NameSpace.tla, 13 frozen references + 6 byte variants of the pinned "
+             "file + tampering after use; symlinks to an outside file planted under every staging name a write route was seen to reuse and under 9 "
+             "conventional names beside the target; "
              "non-trivial = path contains a '..', a symlink kind, a disallowed or odd name (all URIs and names count)",
         samples=samples, exhaustive=True,
         descr=lambda fl, clause: "path=%r" % (fl["path"][:120],),
